@@ -19,7 +19,7 @@ pub fn plan() -> Plan {
         meta: Meta {
             property: "C08",
             level: "exploration",
-            rule: "history + executable model under real concurrency. N client tasks (8..4000) run puts, deletes, reads and contains on few keys (4..16) against one Storage while a maintenance task closes/creates/restores the active blob, forces updates and requests dumps, blobs rotate by a tiny record limit, and H1 delays are injected inside I/O closures. Every client call is logged at the client boundary: invoke(seq) before, return(seq, result) after, seq from one global atomic counter; every write gets a globally unique increasing timestamp and unique value bytes, so each key is a max-register with unique values. Per-key checker (P-compositional, O(n log n)): a completed read/contains must (1) return a value that was written to that key by an operation invoked before the read returned (byte equality), (2) be no older than every write/delete acknowledged before the read was invoked, (3) never go backwards with respect to reads that returned before it was invoked; a share of runs uses tied timestamps with the weaker rule 'value among the candidates with an acceptable timestamp'. At quiescence (all clients done + worker barrier) read/contains of every key equal the max-timestamp acknowledged operation; after close every blob file is parsed independently: records contiguous to EOF, header and data checksums valid, blob_offset == position, and the multiset of puts on disk == the multiset of acknowledged puts (no loss, no duplication, no interleaving), and blobs_count() / records_count() taken at quiescence equal the number of blob files / records in them. Deadlock monitor (timing-free): 'client operations pending, no operation completed, zero I/O in flight and no file operation during >=160 samples over 8 s' is reported as a deadlock with the pending operations. Non-trivial = run with >=2 blobs or >=64 clients; distinct = hash of the per-key completion order (distinct interleavings observed).",
+            rule: "history + executable model under real concurrency. N client tasks (8..4000) run puts, deletes, reads and contains on few keys (4..16) against one Storage while a maintenance task closes/creates/restores the active blob, forces updates and requests dumps, blobs rotate by a tiny record limit, and H1 delays are injected inside I/O closures. Every client call is logged at the client boundary: invoke(seq) before, return(seq, result) after, seq from one global atomic counter; every write gets a globally unique increasing timestamp and unique value bytes, so each key is a max-register with unique values. Per-key checker (P-compositional, O(n log n)): a completed read/contains must (1) return a value that was written to that key by an operation invoked before the read returned (byte equality), (2) be no older than every write/delete acknowledged before the read was invoked, (3) never go backwards with respect to reads that returned before it was invoked; a share of runs uses tied timestamps with the weaker rule 'value among the candidates with an acceptable timestamp'. At quiescence (all clients done + worker barrier) read/contains of every key equal the max-timestamp acknowledged operation, and - judged after the close against the independently parsed files - the record that is rank-first on disk (timestamp, then blob id, then position: with tied timestamps of concurrent writers the in-memory order must be the file order); after close every blob file is parsed independently: records contiguous to EOF, header and data checksums valid, blob_offset == position, and the multiset of puts on disk == the multiset of acknowledged puts (no loss, no duplication, no interleaving), and blobs_count() / records_count() taken at quiescence equal the number of blob files / records in them. Deadlock monitor (timing-free): 'client operations pending, no operation completed, zero I/O in flight and no file operation during >=160 samples over 8 s' is reported as a deadlock with the pending operations. Non-trivial = run with >=2 blobs or >=64 clients; distinct = hash of the per-key completion order (distinct interleavings observed).",
             assumptions: vec!["schedules are those the OS and tokio produced in this run, widened by injected delays; counted, not enumerated", "TSan/ASan builds of the same workload are part of the thorough tier (tools/san.sh)"],
         },
         shards: 16,
@@ -110,6 +110,7 @@ struct RunOut {
     reads_checked: u64,
     blobs: u64,
     records_on_disk: u64,
+    rank_first_checked: u64,
     interleaving: u64,
     max_pending: u64,
     deadlock: bool,
@@ -335,7 +336,7 @@ fn check_history(ops: &[OpRec], tied: bool) -> (Option<(String, String)>, u64, u
 }
 
 async fn run(dir: std::path::PathBuf, cfg: Cfg, rc: RunCfg, seed: u64) -> RunOut {
-    let mut out = RunOut { violation: None, ops: 0, reads_checked: 0, blobs: 0, records_on_disk: 0, interleaving: 0, max_pending: 0, deadlock: false, errors: 0, accounting_calls: 0, inconclusive: None };
+    let mut out = RunOut { violation: None, ops: 0, reads_checked: 0, blobs: 0, records_on_disk: 0, rank_first_checked: 0, interleaving: 0, max_pending: 0, deadlock: false, errors: 0, accounting_calls: 0, inconclusive: None };
     let mut rng = Rng::new(seed);
     let mut s: Storage<ArrayKey<8>> = match builder_for(&cfg, &dir).build() {
         Ok(s) => s,
@@ -520,9 +521,17 @@ async fn run(dir: std::path::PathBuf, cfg: Cfg, rc: RunCfg, seed: u64) -> RunOut
             }
         }
     }
+    // what read() answered at quiescence, per key: (found?, value id or marker timestamp); judged a second time after
+    // the close against the rank-first record in the blob files
+    let mut quiescent_reads: Vec<(u16, bool, u64)> = Vec::new();
     for (key, cands) in top.iter() {
         let k = ArrayKey::<8>::from(key_bytes(salt, *key, 8));
         let got = s.read(&k).await;
+        match &got {
+            Ok(ReadResult::Found(b)) => quiescent_reads.push((*key, true, val_of_bytes(b).unwrap_or(0))),
+            Ok(ReadResult::Deleted(t)) => quiescent_reads.push((*key, false, (*t).into())),
+            _ => {}
+        }
         let ok = match &got {
             Ok(ReadResult::Found(b)) => cands.iter().any(|c| c.kind == 0 && b.as_ref() == value_bytes(c.val, c.size).as_slice()),
             Ok(ReadResult::Deleted(t)) => {
@@ -585,6 +594,8 @@ async fn run(dir: std::path::PathBuf, cfg: Cfg, rc: RunCfg, seed: u64) -> RunOut
     // ---- independent parse of every blob file
     let mut on_disk: HashMap<(Vec<u8>, u64, u64), u32> = HashMap::new(); // (key, ts, val) -> count
     let mut markers: Vec<(Vec<u8>, u64)> = Vec::new();
+    // per key: (timestamp, blob id, position in the blob, is marker, value id) of every record on disk
+    let mut placed: HashMap<Vec<u8>, Vec<(u64, usize, u64, bool, u64)>> = HashMap::new();
     for id in crate::drive::dir_ids(&dir) {
         out.blobs += 1;
         let p = dir.join(format!("t.{}.blob", id));
@@ -602,6 +613,7 @@ async fn run(dir: std::path::PathBuf, cfg: Cfg, rc: RunCfg, seed: u64) -> RunOut
         }
         for r in bp.records.iter() {
             out.records_on_disk += 1;
+            placed.entry(r.key.clone()).or_default().push((r.ts, id, r.pos as u64, r.deleted(), if r.deleted() { 0 } else { val_of_bytes(&r.data).unwrap_or(0) }));
             if r.deleted() {
                 markers.push((r.key.clone(), r.ts));
             } else {
@@ -611,6 +623,21 @@ async fn run(dir: std::path::PathBuf, cfg: Cfg, rc: RunCfg, seed: u64) -> RunOut
                     return out;
                 }
                 *on_disk.entry((r.key.clone(), r.ts, v)).or_insert(0) += 1;
+            }
+        }
+    }
+    // the answer at quiescence must be the rank-first record of the key as the FILES have it: greatest timestamp, then
+    // most recently created blob, then most recently appended (with tied timestamps of concurrent writers this is the
+    // only place where the order of the in-memory index and the order in the file can be told apart without a restart)
+    for (key, found, v) in quiescent_reads.iter() {
+        if let Some(recs) = placed.get(&key_bytes(salt, *key, 8)) {
+            if let Some(first) = recs.iter().max_by_key(|r| (r.0, r.1, r.2)) {
+                let agrees = if first.3 { !*found && *v == first.0 } else { *found && *v == first.4 };
+                if !agrees {
+                    out.violation = Some(("quiescent-read-is-not-the-rank-first-record-on-disk".into(), format!("at quiescence read(k{}) = {} but the rank-first record of that key in the blob files is {} (ts {}, blob {}, offset {}): the order of the in-memory index differs from the order in the file, a regenerated index will answer differently", key, if *found { format!("Found(value {:#x})", v) } else { format!("Deleted({})", v) }, if first.3 { "a deletion marker".to_string() } else { format!("value {:#x}", first.4) }, first.0, first.1, first.2)));
+                    return out;
+                }
+                out.rank_first_checked += 1;
             }
         }
     }
@@ -723,6 +750,7 @@ pub fn shard(ctx: &Ctx) -> Shard {
                 sh.add("blob_files_parsed", out.blobs);
                 sh.add("concurrent_accounting_calls", out.accounting_calls);
                 sh.add("records_on_disk_matched", out.records_on_disk);
+                sh.add("quiescent_reads_equal_rank_first_record_on_disk", out.rank_first_checked);
                 sh.max("max_concurrently_pending_operations", out.max_pending);
                 sh.add(&format!("runs_clients_{:04}", rc.clients), 1);
                 sh.add(if rc.mt { "runs_multi_thread" } else { "runs_current_thread" }, 1);
